@@ -540,3 +540,37 @@ func RunSeq(f Format, cache int, toks []string) (obs []string, findings []Findin
 	}
 	return obs, r.Findings
 }
+
+// ---------- exported helpers for C08 (fault injection reuses the runner and the registry) ----------
+
+// PrivID / PubID map a key value to its identity (0 = unknown).
+func (r *Runner) PrivID(s Slot, v []byte) int { return r.Reg.privID(s, v) }
+func (r *Runner) PubID(s Slot, v []byte) int  { return r.Reg.pubID(s, v) }
+
+// Generations returns the number of identities handed out for the slot.
+func (r *Runner) Generations(s Slot) int { return len(r.Reg.priv[s]) }
+
+// ConsumeIdentity registers the identity of a generation that was interrupted by a fault: the
+// interrupted generation always consumes the next identity; priv/pub are the values that reached
+// the storage completely (nil when they did not).
+func (r *Runner) ConsumeIdentity(s Slot, priv, pub []byte) {
+	r.Reg.priv[s] = append(r.Reg.priv[s], priv)
+	if s.IsPair() {
+		r.Reg.pub[s] = append(r.Reg.pub[s], pub)
+	}
+	o := r.o(s)
+	o.n++
+	o.alive[o.n] = priv != nil
+}
+
+// IDTok renders an identity for the protocol.
+func IDTok(i int) string { return idTok(i) }
+
+// IDsTok renders a list of identities.
+func IDsTok(ids []int) string { return idsTok(ids) }
+
+// ResetFindings drops the C06 oracle's findings (C08 judges its own statement).
+func (r *Runner) ResetFindings() { r.Findings = nil }
+
+// CacheEmptied tells the runner that the handle was replaced (reopen after a crash).
+func (r *Runner) CacheEmptied() { r.cacheEmptied() }
